@@ -9,11 +9,8 @@
    array, 0-d / 1-d (compressed_axes None), n-d, CSR and CSC; a CSR / CSC comes back as a plain GCXS with the same
    fields ([as_saved]).
 
-   Full statement of the missing-member property (what C14 demands):
-       forall x ms keep, save_members x = Ok ms -> (some member is not kept) -> load_members (restrict keep ms) raises.
-   It is FALSE of the code as it stands: the `compressed_axes` member became optional on the load side, so a file of
-   an n-d GCXS that lacks exactly that member loads as a GCXS whose compressed_axes is None
-   (npz_missing_member_refuted); proved under the clause mm_axes_kept (npz_missing_member_partial).
+   The missing-member property is proved in FULL as well (the compressed_axes member is always written and always
+   required since /repo commit 19bbdac): every strict subset of the members of a saved file is rejected.
 
    Full statement of the Numba round trip:
        forall dt c, shape_ok c -> canonicalb c = true -> nb_roundtrip dt c = Ok (ACoo c).
@@ -47,27 +44,19 @@ Example npz_roundtrip_nonvacuous_example :
 Proof. exact npz_roundtrip_nonvacuous. Qed.
 
 (* a file that holds only some of the members save_npz writes is rejected, never loaded as another array *)
-Theorem npz_missing_member_partial :
+Theorem npz_missing_member_rejected :
   forall (V : Type) (x : arr V) (ms : members V) (keep : string -> bool),
     class_ok V x = true ->
     save_members V x = Ok ms ->
     (exists n, In n (map fst ms) /\ keep n = false) ->
-    mm_axes_kept V x keep = true ->
     exists e, load_members V (restrict V keep ms) = Raise e.
-Proof. exact npz_missing_member_partial_proof. Qed.
-Print Assumptions npz_missing_member_partial.
+Proof. exact npz_missing_member_rejected_proof. Qed.
+Print Assumptions npz_missing_member_rejected.
 
 Example npz_missing_member_nonvacuous :
-  exists ms, save_members Z w_gcxs_3d = Ok ms /\ In s_indptr (map fst ms)
-             /\ mm_axes_kept Z w_gcxs_3d (fun n => negb (String.eqb n s_indptr)) = true.
-Proof. eexists. split; [reflexivity | split; [cbn; tauto | reflexivity]]. Qed.
-
-Theorem npz_missing_member_refuted :
-  exists (x : arr Z) (ms : members Z) (keep : string -> bool) (y : arr Z),
-    wf Z x = true /\ save_members Z x = Ok ms /\ (exists n, In n (map fst ms) /\ keep n = false) /\
-    load_members Z (restrict Z keep ms) = Ok y /\ y <> as_saved Z x.
-Proof. exact npz_missing_member_refuted_proof. Qed.
-Print Assumptions npz_missing_member_refuted.
+  exists ms, save_members Z w_gcxs_3d = Ok ms /\ In s_axes (map fst ms)
+             /\ (exists ms1, save_members Z w_gcxs_1d = Ok ms1 /\ In s_axes (map fst ms1)).
+Proof. eexists. split; [reflexivity | split; [cbn; tauto | eexists; split; [reflexivity | cbn; tauto]]]. Qed.
 
 (* ---- the container layer, under the oracle assumption on numpy / zipfile (a hypothesis, not an axiom) *)
 Theorem npz_file_roundtrip :
